@@ -139,9 +139,6 @@ def fourth_order(D, fam):
         o.append(thm(n + "st_getComponent", [("a", "ST")],
                      "%s\n      = T4.comps pairs%d %s" % (D.gen("st_getComponent", [A("a", "ST")]), N, D.ST("a")),
                      doc="`getComponent(C,i,j,k,l)` is `C_ijkl` for the fourth-order tensor `T4.ofST` reads from the storage"))
-        o.append(thm(n + "st_convert_from_t2tost2", [("a", "TS")],
-                     D.OST(D.gen("st_convert_from_t2tost2", [A("a", "TS")]), "(T4.symR %s)" % D.TS("a")),
-                     doc="`st2tost2::convert(D)`: restriction of `D` to symmetric arguments, `(D_ijkl + D_ijlk)/2`"))
         o.append(thm(n + "st_comp_ts_s2t", [("a", "TS"), ("b", "S2T")],
                      D.OST(D.gen("st_comp_ts_s2t", [A("a", "TS"), A("b", "S2T")]), "(T4.comp %s %s)" % (D.TS("a"), D.S2T("b"))),
                      doc="`t2tost2 * st2tot2`",
@@ -383,6 +380,17 @@ def cb_module():
     return "".join(o)
 
 
+def conv_module():
+    o = []
+    for N in (3, 2, 1):
+        D = Dim(N)
+        o.append(thm("N%d_st_convert_from_t2tost2" % N, [("a", "TS")],
+                     D.OST(D.gen("st_convert_from_t2tost2", [D.a("a", "TS")]), "(T4.symR %s)" % D.TS("a")),
+                     doc="`st2tost2::convert(D)`: restriction of `D` to symmetric arguments, `(D_ijkl + D_ijlk)/2`, i.e. "
+                         "`convert(D) * s = D * unsyme(s)` for every symmetric `s`"))
+    return "".join(o)
+
+
 def pf_module():
     o = []
     for N in (3, 2, 1):
@@ -420,6 +428,12 @@ def main():
   (same scalar operations), so that in index notation, by `N*_*_fromRotationMatrix`, the product theorems `N*_*_comp*`
   and `Lemmas.comp_rot_comp_rot`:   change_basis(C,R)_ijkl = R_mi R_nj C_mnpq R_pk R_ql .
   `matOf p l` reads a row-major list as a matrix (C02/Spec.lean).
+""")
+    write("PropsConv.lean", "conversion `st2tost2::convert(t2tost2)` (ConvertT2toST2ToST2toST2Expr.hxx).",
+          L + ["TfelVerif.C02.GenN1", "TfelVerif.C02.Gen2ST", "TfelVerif.C02.Gen3ST"], conv_module(),
+          extra="""  Kept in a module of its own: on the tree as first checked, the 2D and 3D statements FAIL (the shear/shear block of the
+  result is multiplied by √2 instead of 1/√2, see patches/C02-ConvertT2toST2ToST2toST2Expr.diff); a failing module is never
+  cached, so the other st2tost2 theorems live elsewhere.
 """)
     write("PropsPF.lean", "push-forward and pull-back of `st2tost2` (ST2toST2ConceptPushForward.ixx).",
           L + ["TfelVerif.C02.GenPF", "TfelVerif.C02.GenT"], pf_module())
